@@ -6,6 +6,7 @@ import (
 	"net"
 	"sync"
 	"time"
+	"verifharness/ev"
 
 	"google.golang.org/grpc"
 	"google.golang.org/grpc/credentials/insecure"
@@ -125,6 +126,7 @@ func (m *GRPCModStream) Read() (*spb.ModifyResponse, error) {
 		}
 		return x.r, x.err
 	case <-time.After(Watchdog):
+		ev.NoteWatchdog("a Modify stream produced no response")
 		return nil, ErrWatchdog
 	}
 }
@@ -199,6 +201,7 @@ func (g *GRPCServer) GRPCGet(req *spb.GetRequest, stopAfter int, kill bool) ([]*
 	case x := <-done:
 		return x.out, x.err, nil
 	case <-time.After(Watchdog):
+		ev.NoteWatchdog("a Get / Flush RPC did not return")
 		return nil, nil, ErrWatchdog
 	}
 }
@@ -214,6 +217,7 @@ func (g *GRPCServer) GRPCFlush(req *spb.FlushRequest) (*spb.FlushResponse, error
 	defer cancel()
 	r, err := spb.NewGRIBIClient(cc).Flush(ctx, req)
 	if ctx.Err() != nil {
+		ev.NoteWatchdog("a Get / Flush RPC did not return")
 		return nil, nil, ErrWatchdog
 	}
 	return r, err, nil
